@@ -117,6 +117,35 @@ CLAIMED = {
             "reference. Directory discovery (os.walk), dataset validation and the CLI are NOT decided.",
             "stubbed discovery (given file objects), module-local open/json for sidecar contents; 0-3 sidecars, "
             "1-character labels (quick)."),
+    "C08": ("3/C08",
+            "Bounded, solver-decided: (a) totality - the public Sidecar(...).validate(schema) on every decoded JSON "
+            "document built from symbolic selectors to depth 3 (value kinds per level, short strings over braces/#/"
+            "letters, special keys HED and n/a) returns a list of well-formed issues and never raises; a non-object "
+            "top level is refused at load with the documented file error; (b) each structural rule against an "
+            "independent reading (column kinds, category keys, '#' counts, brace balance/nesting positions, unknown/"
+            "self/nested references): exactly one broken rule => that rule's code at error severity, none broken => "
+            "no structure code. One recorded known finding ({}-style references) is excluded and replayed.",
+            "mini schema; keys from a small alphabet (hashed); strings stored directly under HED are realised before "
+            "pandas sees them; per-entry HED string validation is C01's subject."),
+    "C12": ("3/C12",
+            "Bounded, solver-decided: for issues produced by the real error wrappers on real tags parsed from "
+            "symbolic text, character offsets lie inside the text and the tag span and select exactly the quoted "
+            "fragment (also for rows combined from several cells), the location suffix occurs exactly once after one "
+            "or two decoration passes and through the real HedValidator.validate staging, errors-only equals the "
+            "error subset in order, sort_issues is a stable permutation ordered by file/column/key/row, and "
+            "replace_tag_references leaves JSON-serialisable values with unchanged codes.",
+            "NoSchema stub; the two validator stage methods are overridden to return issues built by the real "
+            "format_error (whole-validator runs on symbolic text are out of reach); texts of 1-5 characters."),
+    "C15": ("3/C15",
+            "Bounded, solver-decided: the real query parser on every token-kind sequence up to the bound (only "
+            "ValueError may escape, every sentence of a reference grammar compiles, anything that compiles has "
+            "balanced grouping symbols), tied to the real tokenizer; and the algebra laws (A||B iff A or B, A&&B "
+            "symmetric/associative/implies both via distinct tags, term/quoted/star modes, sibling-permutation "
+            "invariance, repeated search agrees, annotation unchanged) on fixed annotation shapes whose tag letters "
+            "are symbolic, over a term-stub schema.",
+            "token kinds symbolic, texts looked up lazily (the regex tokenizer realises); queries in the algebra "
+            "harnesses are concrete and selected by small ints; shapes of <=5 tags; depth-4 grammar x depth-4 "
+            "annotations and query_service (pandas) are outside."),
 }
 
 NOT_APPLICABLE = {
